@@ -37,6 +37,75 @@ Example max_retries_is : max_retries = 2. Proof. reflexivity. Qed.
 (** the score cache of msgAssigner never persists (value receiver): every pick ranks afresh, as [pick] does *)
 Example pick_receiver_is_value : Gen.C14.msg_assigner_pick_receiver = "value"%string. Proof. reflexivity. Qed.
 
+(** Everything the keepers reachable from an assignment hold OUTSIDE the store (struct fields, package
+    variables), reviewed: collaborators, codecs, store handles (KVStoreWrapper = prefix + codec, no
+    data), constants, the listener / registry slices filled once at app construction, and
+    msgAssigner.scores - a memo that never persists (value receiver, pick_receiver_is_value).  None of it
+    can carry table data from a discarded store branch into a later assignment; a new entry (for
+    instance a per-block memo of the relayer-fee table) is unreviewed and breaks this pin. *)
+Definition reviewed_memory_state : list string :=
+  ["x/consensus/keeper:Keeper.cdc codec.Codec";
+    "x/consensus/keeper:Keeper.consensusChecker *libcons.ConsensusChecker";
+    "x/consensus/keeper:Keeper.evmKeeper types.EvmKeeper";
+    "x/consensus/keeper:Keeper.feeProvider FeeProvider";
+    "x/consensus/keeper:Keeper.ider keeperutil.IDGenerator";
+    "x/consensus/keeper:Keeper.onMessageAttestedListeners []metrixtypes.OnConsensusMessageAttestedListener";
+    "x/consensus/keeper:Keeper.paramstore paramtypes.Subspace";
+    "x/consensus/keeper:Keeper.registry *registry";
+    "x/consensus/keeper:Keeper.storeKey store.KVStoreService";
+    "x/consensus/keeper:Keeper.valset types.ValsetKeeper";
+    "x/consensus/keeper:msgServer.(embedded) Keeper";
+    "x/consensus/keeper:registry.slice []consensus.SupportsConsensusQueue";
+    "x/consensus/keeper:var decPrecisionDivisor";
+    "x/consensus/keeper:var defaultResponseMessageCount";
+    "x/evm/keeper:Keeper.AddressCodec address.Codec";
+    "x/evm/keeper:Keeper.ConsensusKeeper types.ConsensusKeeper";
+    "x/evm/keeper:Keeper.SchedulerKeeper types.SchedulerKeeper";
+    "x/evm/keeper:Keeper.Skyway types.SkywayKeeper";
+    "x/evm/keeper:Keeper.Valset types.ValsetKeeper";
+    "x/evm/keeper:Keeper.authority string";
+    "x/evm/keeper:Keeper.cdc codec.BinaryCodec";
+    "x/evm/keeper:Keeper.consensusChecker *libcons.ConsensusChecker";
+    "x/evm/keeper:Keeper.ider keeperutil.IDGenerator";
+    "x/evm/keeper:Keeper.msgAssigner types.MsgAssigner";
+    "x/evm/keeper:Keeper.msgSender types.MsgSender";
+    "x/evm/keeper:Keeper.onMessageAttestedListeners []metrixtypes.OnConsensusMessageAttestedListener";
+    "x/evm/keeper:Keeper.storeKey corestore.KVStoreService";
+    "x/evm/keeper:msgAssigner.ValsetKeeper types.ValsetKeeper";
+    "x/evm/keeper:msgAssigner.logProvider func(ctx context.Context) liblog.Logr";
+    "x/evm/keeper:msgAssigner.metrixKeeper types.MetrixKeeper";
+    "x/evm/keeper:msgAssigner.scores scoreSnapshot";
+    "x/evm/keeper:msgAssigner.treasuryKeeper types.TreasuryKeeper";
+    "x/evm/keeper:msgSender.ConsensusKeeper types.ConsensusKeeper";
+    "x/evm/keeper:msgSender.cdc codec.BinaryCodec";
+    "x/evm/keeper:msgServer.(embedded) Keeper";
+    "x/evm/keeper:var SupportedConsensusQueues";
+    "x/evm/keeper:var contractDeployedEvent";
+    "x/evm/keeper:var lastSmartContractKey";
+    "x/evm/keeper:var xchainType";
+    "x/metrix/keeper:Keeper.AddressCodec address.Codec";
+    "x/metrix/keeper:Keeper.cdc codec.BinaryCodec";
+    "x/metrix/keeper:Keeper.history keeperutil.KVStoreWrapper[*types.ValidatorHistory]";
+    "x/metrix/keeper:Keeper.messageNonceCache keeperutil.KVStoreWrapper[*types.HistoricRelayData]";
+    "x/metrix/keeper:Keeper.metrics keeperutil.KVStoreWrapper[*types.ValidatorMetrics]";
+    "x/metrix/keeper:Keeper.paramstore paramtypes.Subspace";
+    "x/metrix/keeper:Keeper.slashing types.SlashingKeeper";
+    "x/metrix/keeper:Keeper.staking types.StakingKeeper";
+    "x/metrix/keeper:msgServer.(embedded) Keeper";
+    "x/treasury/keeper:Keeper.Chains []xchain.FundCollecter";
+    "x/treasury/keeper:Keeper.KeeperUtil keeperutil.KeeperUtilI[*types.Fees]";
+    "x/treasury/keeper:Keeper.Store types.TreasuryStore";
+    "x/treasury/keeper:Keeper.account types.AccountKeeper";
+    "x/treasury/keeper:Keeper.bank types.BankKeeper";
+    "x/treasury/keeper:Keeper.cdc codec.BinaryCodec";
+    "x/treasury/keeper:Keeper.evm types.EvmKeeper";
+    "x/treasury/keeper:Keeper.paramstore paramtypes.Subspace";
+    "x/treasury/keeper:Keeper.relayerFees keeperutil.KVStoreWrapper[*types.RelayerFeeSetting]";
+    "x/treasury/keeper:msgServer.(embedded) Keeper";
+    "x/treasury/keeper:var maxRelayerFeeMultiplicator"]%string.
+Lemma memory_state_is_reviewed : Gen.C14.memory_state = reviewed_memory_state.
+Proof. reflexivity. Qed.
+
 (** Every production call that puts a message into a turnstone queue takes Assignee and
     AssigneeRemoteAddress from results 0 and 1 of one PickValidatorForMessage call whose error is
     returned before the put; every other queue's payload is written without an assignee. *)
